@@ -5,6 +5,7 @@ import GuppyVerif.Util.Sexp
       `(wrap W (text) (initial) (subsequent))`
       `(snip (content) (l c l c) LABEL MAXLINENO PRIMARY PREFIX)`      LABEL = `none` | `(codes)`
       `(tospan ((line) (line) ...) (lineno col_offset end_lineno end_col_offset))`  -> `span l c l c`
+      `(hist (OP ...) (file) (l c l c) LABEL MAXLINENO PRIMARY PREFIX)`   OP = `(cache (file) ((line) ...))` | `(content (file) (text))`
       `(diag (file) (content) (LEVEL SPAN (title) LABEL MESSAGE (CHILD ...)))`
           SPAN = `none` | `(l c l c)`; CHILD = `(LEVEL SPAN LABEL MESSAGE)`
     Replies: `ok (codes) (codes) ...` one list per rendered line, or `err assertion|internal|value`. -/
@@ -43,6 +44,11 @@ def diag? : Sexp → Option Diag
     some ⟨← level? lv, ← optSpan? sp, ← str? ti, ← optStr? lb, ← optStr? ms, ← cs.mapM child?⟩
   | _ => none
 
+def srcOp? : Sexp → Option SrcOp
+  | .list [.atom "cache", f, .list ls] => do some (.cache (← str? f) (← ls.mapM str?))
+  | .list [.atom "content", f, t] => do some (.content (← str? f) (← str? t))
+  | _ => none
+
 def showStr (s : Str) : String :=
   "(" ++ " ".intercalate (s.map fun c => toString c.toNat) ++ ")"
 
@@ -51,6 +57,7 @@ def showRes : Except Err (List Str) → String
   | .error .assertion => "err assertion"
   | .error .internal => "err internal"
   | .error .value => "err value"
+  | .error .key => "err key"
 
 def handle (line : String) : String :=
   match Sexp.parse line with
@@ -71,6 +78,11 @@ def handle (line : String) : String :=
       if s.stop.line < s.start.line || (s.stop.line == s.start.line && s.stop.col < s.start.col) then "err internal"
       else s!"span {s.start.line} {s.start.col} {s.stop.line} {s.stop.col}"
     | _, _, _, _, _ => "bad-op"
+  | some (.list [.atom "hist", .list ops, file, sp, lb, ml, pr, pf]) =>
+    match ops.mapM srcOp?, str? file, span? sp, optStr? lb, ml.asNat?, pr.asNat?, pf.asNat? with
+    | some ops, some file, some sp, some lb, some ml, some pr, some pf =>
+      showRes (renderIn ops file sp lb ml (pr != 0) pf)
+    | _, _, _, _, _, _, _ => "bad-op"
   | some (.list [.atom "diag", file, content, d]) =>
     match str? file, str? content, diag? d with
     | some file, some content, some d => showRes (renderDiagnostic file (splitlines content) d)
